@@ -148,8 +148,27 @@ func (c *Ctx) NAME(rule string) []report.Obligation {
 				impIf = b
 			}
 		}
-		reads := callSites(f, func(com *ssa.CallCommon) bool {
+		isRead := func(com *ssa.CallCommon) bool {
 			return staticName(com) == "os.ReadFile" || strings.HasSuffix(staticName(com), "yaml.v3.NewDecoder")
+		}
+		// the scan of the files may live in a helper of the package: calling it is reading the files
+		scanners := []*ssa.Function{f}
+		for _, cs := range callSites(f, func(com *ssa.CallCommon) bool {
+			cal := com.StaticCallee()
+			return cal != nil && c.P.InModule(cal) && strings.HasPrefix(c.P.FuncID(cal), "loader.") && len(callSites(cal, isRead)) > 0
+		}) {
+			scanners = append(scanners, cs.Common().StaticCallee())
+		}
+		reads := callSites(f, func(com *ssa.CallCommon) bool {
+			if isRead(com) {
+				return true
+			}
+			for _, g := range scanners[1:] {
+				if com.StaticCallee() == g {
+					return true
+				}
+			}
+			return false
 		})
 		if impIf == nil || len(reads) == 0 {
 			out = append(out, bad(rule+"-2", "projectName :: imperative name short-circuits", c.P.Pos(f.Pos()), "cannot find the projectNameImperativelySet test / the file reads"))
@@ -208,23 +227,26 @@ func (c *Ctx) NAME(rule string) []report.Obligation {
 		}
 		// last file wins: the block that records n.Name stays in the loop
 		rec := false
-		for _, b := range f.Blocks {
-			iff, ok := b.Instrs[len(b.Instrs)-1].(*ssa.If)
-			if !ok {
-				continue
-			}
-			bo, ok := iff.Cond.(*ssa.BinOp)
-			if !ok || bo.Op != token.NEQ || loadedField(bo.X) != "Name" {
-				continue
-			}
-			if s, isC := prog.ConstString(bo.Y); !isC || s != "" {
-				continue
-			}
-			t := b.Succs[0]
-			rec = fi.InLoop(t) || fi.Reaches(t, b)
-			for _, s := range t.Succs {
-				if !fi.Reaches(s, b) && s != b {
-					rec = false
+		for _, g := range scanners {
+			gi := prog.Info(g)
+			for _, b := range g.Blocks {
+				iff, ok := b.Instrs[len(b.Instrs)-1].(*ssa.If)
+				if !ok {
+					continue
+				}
+				bo, ok := iff.Cond.(*ssa.BinOp)
+				if !ok || bo.Op != token.NEQ || loadedField(bo.X) != "Name" {
+					continue
+				}
+				if s, isC := prog.ConstString(bo.Y); !isC || s != "" {
+					continue
+				}
+				t := b.Succs[0]
+				rec = gi.InLoop(t) || gi.Reaches(t, b)
+				for _, s := range t.Succs {
+					if !gi.Reaches(s, b) && s != b {
+						rec = false
+					}
 				}
 			}
 		}
@@ -453,6 +475,7 @@ func (c *Ctx) LAY(rule string) []report.Obligation {
 	type spec struct {
 		fn, loader, field, files string
 	}
+	var envEntry, envHost *ssa.Function
 	for _, sp := range []spec{
 		{"types.(Project).WithServicesEnvironmentResolved", "types.loadEnvFile", "Environment", "EnvFiles"},
 		{"types.(Project).WithServicesLabelsResolved", "types.loadLabelFile", "Labels", "LabelFiles"},
@@ -461,6 +484,23 @@ func (c *Ctx) LAY(rule string) []report.Obligation {
 		if f == nil {
 			out = append(out, anchorViolation(rule, sp.fn))
 			continue
+		}
+		// the layering may live in a per-service helper of the package: the function that calls the file loader
+		entry := f
+		if len(c.callsTo(f, sp.loader)) == 0 {
+			var hosts []*ssa.Function
+			for _, cs := range callSites(f, func(com *ssa.CallCommon) bool {
+				cal := com.StaticCallee()
+				return cal != nil && c.P.InModule(cal) && strings.HasPrefix(c.P.FuncID(cal), "types.") && len(c.callsTo(cal, sp.loader)) > 0
+			}) {
+				hosts = append(hosts, cs.Common().StaticCallee())
+			}
+			if len(hosts) == 1 {
+				f = hosts[0]
+			}
+		}
+		if sp.field == "Environment" {
+			envEntry, envHost = entry, f
 		}
 		fi := prog.Info(f)
 		lf := c.callsTo(f, sp.loader)
@@ -506,23 +546,29 @@ func (c *Ctx) LAY(rule string) []report.Obligation {
 			"service."+sp.field+" is assigned from the final OverrideBy", "the layered mapping is not stored back to the service"))
 		// LAY-4: discarding only removes the file references
 		n := 0
-		for _, b := range f.Blocks {
-			for _, in := range b.Instrs {
-				st, ok := in.(*ssa.Store)
-				if !ok || !isNilOrConst(st.Val) {
-					continue
-				}
-				fa, ok := st.Addr.(*ssa.FieldAddr)
-				if !ok {
-					continue
-				}
-				if fieldName(fa) == sp.files {
-					n++
-					flag := factHolds(b, func(cond ssa.Value, val bool) bool { return sameParam(cond, paramByType(f, "bool")) && val })
-					out = append(out, verdict(flag, rule+"-4", sp.fn+" :: file references dropped only when requested", c.P.InstrPos(in),
-						sp.files+" = nil on the discard=true edge", "the file references are dropped regardless of the discard flag"))
-				} else if fieldOwner(fa) == "ServiceConfig" {
-					out = append(out, bad(rule+"-4", sp.fn+" :: nothing else is cleared", c.P.InstrPos(in), "field "+fieldName(fa)+" is reset to nil while resolving"))
+		scan := []*ssa.Function{f}
+		if entry != f {
+			scan = append(scan, entry)
+		}
+		for _, g := range scan {
+			for _, b := range g.Blocks {
+				for _, in := range b.Instrs {
+					st, ok := in.(*ssa.Store)
+					if !ok || !isNilOrConst(st.Val) {
+						continue
+					}
+					fa, ok := st.Addr.(*ssa.FieldAddr)
+					if !ok {
+						continue
+					}
+					if fieldName(fa) == sp.files {
+						n++
+						flag := factHolds(b, func(cond ssa.Value, val bool) bool { return sameParam(cond, paramByType(g, "bool")) && val })
+						out = append(out, verdict(flag, rule+"-4", sp.fn+" :: file references dropped only when requested", c.P.InstrPos(in),
+							sp.files+" = nil on the discard=true edge", "the file references are dropped regardless of the discard flag"))
+					} else if fieldOwner(fa) == "ServiceConfig" {
+						out = append(out, bad(rule+"-4", sp.fn+" :: nothing else is cleared", c.P.InstrPos(in), "field "+fieldName(fa)+" is reset to nil while resolving"))
+					}
 				}
 			}
 		}
@@ -531,7 +577,17 @@ func (c *Ctx) LAY(rule string) []report.Obligation {
 		}
 	}
 	// LAY-3: the lookup closure of the environment resolution consults the accumulator, then the project environment
-	if f := c.P.Func("types.(Project).WithServicesEnvironmentResolved$1"); f != nil {
+	// (the closure of the function that layers the env files which calls Mapping.Resolve)
+	var f *ssa.Function
+	if envHost != nil {
+		for _, af := range envHost.AnonFuncs {
+			if len(c.callsTo(af, "types.(Mapping).Resolve")) > 0 {
+				f = af
+				break
+			}
+		}
+	}
+	if f != nil {
 		var lk *ssa.Lookup
 		var res ssa.CallInstruction
 		for _, b := range f.Blocks {
@@ -547,7 +603,22 @@ func (c *Ctx) LAY(rule string) []report.Obligation {
 		good := lk != nil && res != nil && prog.InstrDominates(lk, res)
 		if good {
 			_, isMap := c.bindingOfLoad(lk.X).(*ssa.MakeMap)
-			good = isMap && c.readsField(res.Common().Args[0], "Environment", 5)
+			recv := res.Common().Args[0]
+			fromEnv := c.readsField(recv, "Environment", 5)
+			if pa, isParam := c.bindingOfLoad(recv).(*ssa.Parameter); isParam && !fromEnv && envEntry != envHost {
+				// the helper receives the project environment from the entry point
+				for i, hp := range envHost.Params {
+					if hp != pa {
+						continue
+					}
+					for _, cs := range callSites(envEntry, func(com *ssa.CallCommon) bool { return com.StaticCallee() == envHost }) {
+						if i < len(cs.Common().Args) && c.readsField(cs.Common().Args[i], "Environment", 5) {
+							fromEnv = true
+						}
+					}
+				}
+			}
+			good = isMap && fromEnv
 		}
 		out = append(out, verdict(good, rule+"-3", "env file lookup :: earlier files, then project environment", c.P.Pos(f.Pos()),
 			"the lookup handed to the env-file parser reads the per-service accumulator first and newProject.Environment.Resolve second", "env files can no longer reference earlier env files / the project environment in that order"))
